@@ -2,10 +2,10 @@
 # Negative test: seeded/harmless_refactors.diff is a bundle of semantics-preserving edits of /repo
 # (to_bytes instead of pack, chained comparison, divmod, precompiled struct.Struct, merged writes,
 # renamed locals, helper extraction, f-string, branch order).  Every check must still exit 0.
-cd /verif
+V="$(cd "$(dirname "$0")/.." && pwd)"; cd "$V"
 WT=/tmp/wt_refactor_$$
 git -C /repo worktree add -q --detach "$WT" HEAD || exit 9
-git -C "$WT" apply /verif/seeded/harmless_refactors.diff || { echo "refactor patch does not apply"; git -C /repo worktree remove --force "$WT"; exit 9; }
+git -C "$WT" apply $V/seeded/harmless_refactors.diff || { echo "refactor patch does not apply"; git -C /repo worktree remove --force "$WT"; exit 9; }
 bad=0
 for p in ${@:-C01 C02 C03 C04 C05 C06 C07 C08 C09 C10 C11 C12 C13 C14 C15 C16 C17 C18 C19 C20}; do
   out=$(RV_REPO="$WT" ./check "$p" --tier quick --no-evidence 2>&1); rc=$?
